@@ -326,7 +326,7 @@ theorem stopFirst_spec (e : Env) (s : State) (r : Request) (x : PopEntry) (s1 : 
     stopFirst e s r = some (x, s1) ↔
       ∃ ex rs, decodePopulate r.body = some [x] ∧ (x.name == "" || x.upstream == "") = false ∧
         s.find x.name = some ex ∧ e.resolve x.listen = some rs ∧
-        (e.sameListen ex.listen x.listen && ex.upstream == x.upstream) = false ∧ ex.enabled = true ∧
+        (e.sameListen ex.listen x.listen && ex.upstream == x.upstream) = false ∧
         s1 = s.replace (off ex) := by
   constructor
   · intro hsf
@@ -344,18 +344,15 @@ theorem stopFirst_spec (e : Env) (s : State) (r : Request) (x : PopEntry) (s1 : 
             split at hsf
             · cases hsf
             · rename_i hdiff
-              split at hsf
-              · rename_i hen
-                simp only [Option.some.injEq, Prod.mk.injEq] at hsf
-                obtain ⟨hx, hs⟩ := hsf
-                subst hx
-                exact ⟨ex, rs, hdec, by simpa using hne, hfind, hres, by simpa using hdiff, hen, hs.symm⟩
-              · cases hsf
+              simp only [Option.some.injEq, Prod.mk.injEq] at hsf
+              obtain ⟨hx, hs⟩ := hsf
+              subst hx
+              exact ⟨ex, rs, hdec, by simpa using hne, hfind, hres, by simpa using hdiff, hs.symm⟩
         · cases hsf
     · cases hsf
-  · rintro ⟨ex, rs, hdec, hne, hfind, hres, hdiff, hen, hs1⟩
+  · rintro ⟨ex, rs, hdec, hne, hfind, hres, hdiff, hs1⟩
     unfold stopFirst
-    simp only [hdec, hne, Bool.false_eq_true, if_false, hfind, hres, hdiff, hen, if_true, hs1, off]
+    simp only [hdec, hne, Bool.false_eq_true, if_false, hfind, hres, hdiff, hs1, off]
 
 theorem alone_replace (v : UpdVariant) (e : Env) (c : CState) (r : Request)
     (hz : c.zombies = []) (hl : c.locked = []) (hk : kindOf r = .replace) :
@@ -372,10 +369,10 @@ theorem alone_replace (v : UpdVariant) (e : Env) (c : CState) (r : Request)
   | some xs =>
     obtain ⟨x, s1⟩ := xs
     -- what `stopFirst` found
-    obtain ⟨ex, rs, hdec, hne, hfind, hres, hdiff, hen, hs1⟩ :
+    obtain ⟨ex, rs, hdec, hne, hfind, hres, hdiff, hs1⟩ :
         ∃ ex rs, decodePopulate r.body = some [x] ∧ (x.name == "" || x.upstream == "") = false ∧
           c.s.find x.name = some ex ∧ e.resolve x.listen = some rs ∧
-          (e.sameListen ex.listen x.listen && ex.upstream == x.upstream) = false ∧ ex.enabled = true ∧
+          (e.sameListen ex.listen x.listen && ex.upstream == x.upstream) = false ∧
           s1 = c.s.replace { ex with enabled := false } := by
       unfold stopFirst at hsf
       split at hsf
@@ -391,13 +388,10 @@ theorem alone_replace (v : UpdVariant) (e : Env) (c : CState) (r : Request)
               split at hsf
               · cases hsf
               · rename_i hdiff
-                split at hsf
-                · rename_i hen
-                  simp only [Option.some.injEq, Prod.mk.injEq] at hsf
-                  obtain ⟨hx, hs⟩ := hsf
-                  subst hx
-                  exact ⟨ex, rs, hdec, by simpa using hne, hfind, hres, by simpa using hdiff, hen, hs.symm⟩
-                · cases hsf
+                simp only [Option.some.injEq, Prod.mk.injEq] at hsf
+                obtain ⟨hx, hs⟩ := hsf
+                subst hx
+                exact ⟨ex, rs, hdec, by simpa using hne, hfind, hres, by simpa using hdiff, hs.symm⟩
           · cases hsf
       · cases hsf
     let off : ProxyRec := { ex with enabled := false }
@@ -458,7 +452,7 @@ theorem replacing_block (v : UpdVariant) (e : Env) (sA : State) (r : Request) (x
     (advance v e c r (.replacing x)).1.s = (step v e sA r).1 ∧
     (advance v e c r (.replacing x)).2 = .done (step v e sA r).2 ∧
     (advance v e c r (.replacing x)).1.zombies = [] ∧ (advance v e c r (.replacing x)).1.locked = [] := by
-  obtain ⟨ex, rs, hdec, hne, hfind, hres, hdiff, hen, hs1⟩ := (stopFirst_spec e sA r x c.s).mp hsf
+  obtain ⟨ex, rs, hdec, hne, hfind, hres, hdiff, hs1⟩ := (stopFirst_spec e sA r x c.s).mp hsf
   have hoffn : (off ex).name = x.name := (find_name hfind : ex.name = x.name)
   have hfo : c.s.find x.name = some (off ex) := by rw [hs1]; exact find_replace_self sA x.name ex (off ex) hoffn hfind
   let np : ProxyRec := ⟨x.name, x.listen, x.upstream, false, []⟩
@@ -598,6 +592,27 @@ theorem C16_replace_race_not_sequential :
       = ([("p1", "u:2", true), ("p2", "u:9", false)], [1], [201, 500]) ∧
     outcome envW2 (runSched .fixed envW2 [replaceReq, moveP2Req] { s := [p1on, p2on] } [.start, .start] [1, 1, 1, 1, 1, 0, 0])
       = ([("p1", "u:2", true), ("p2", "u:9", false)], [1], [201, 500]) := by
+  decide
+
+/-- **Witness (a replacement of a *stopped* proxy finds its port taken by the proxy it
+replaces).** Requests: 0 = populate replacing the stopped p1 (same address `a:1`, new upstream),
+1 = enable p1.  Schedule: the enable looks p1 up (the old object) and reads its defaults; the
+populate's `existing.Stop()` has nothing to stop, and it holds the collection lock — which
+`Proxy.Update` does not take; the enable starts the old object on `a:1`; the populate's start of
+the new object fails.  The populate answers 500, the enable 200, and the *old* p1 stays
+registered, running with the old upstream. -/
+theorem C16_replace_stopped_witness :
+    outcome envW (runSched .fixed envW [replaceReq, enableReq] { s := [p1off] } [.start, .start] [1, 1, 0, 1, 0])
+      = ([("p1", "u:1", true)], [1], [500, 200]) := by
+  decide
+
+/-- … whereas one at a time both succeed and the *new* p1 (upstream `u:2`) is registered and
+running, in either order. -/
+theorem C16_replace_stopped_not_sequential :
+    outcome envW (runSched .fixed envW [replaceReq, enableReq] { s := [p1off] } [.start, .start] [0, 0, 1, 1, 1])
+      = ([("p1", "u:2", true)], [1], [201, 200]) ∧
+    outcome envW (runSched .fixed envW [replaceReq, enableReq] { s := [p1off] } [.start, .start] [1, 1, 1, 0, 0])
+      = ([("p1", "u:2", true)], [1], [201, 200]) := by
   decide
 
 end Toxi.Conc
